@@ -71,6 +71,50 @@ def scan_forbidden() -> list[str]:
     return hits
 
 
+def extraction_cross_check(ctx, po: dict) -> None:
+    """The driver is extracted OCaml.  For a sample of the commands it answered in this run, ask it for
+    the same command as a Coq Example (`XC ...`) and let coqc evaluate the model by vm_compute on the same
+    input: the kernel's evaluation and the extracted program must agree."""
+    drv = ctx.driver
+    cmds = [c for fam in drv.XC_FAMILIES for c in drv.sample.get(fam, [])]
+    if not cmds:
+        return
+    saved = (dict(drv.sample), dict(drv.seen))
+    lines = drv.ask_many(["XC " + c for c in cmds])
+    drv.sample, drv.seen = saved
+    body = ["From PJ.Model Require Import Base Lookup Terms Wire Encoder Streams Decoder Spec Audit Source Api Obs.",
+            "Local Open Scope N_scope."]
+    used = []
+    for i, (c, ln) in enumerate(zip(cmds, lines)):
+        if ln.startswith("DRIVER-ERROR") or len(ln) > 60000:
+            continue
+        used.append((i, c))
+        body.append(f"Example xc{i} : {ln}.\nProof. vm_compute. reflexivity. Qed.")
+    import shutil
+    import tempfile
+
+    tmpd = tempfile.mkdtemp(prefix="verif_xc_")
+    try:
+        (Path(tmpd) / "Xc.v").write_text("\n".join(body) + "\n")
+        rc, out = sh(f"cd {VERIF}/coq && timeout 600 coqc -Q model PJ.Model -Q proofs PJ.Proofs -Q {tmpd} PJ.Xc {tmpd}/Xc.v", timeout=700)
+    finally:
+        shutil.rmtree(tmpd, ignore_errors=True)
+    ctx.report.count("extraction-cross-check/examples", len(used))
+    fams = sorted({c[:2] for _, c in used})
+    if rc != 0:
+        m = re.search(r"line (\d+)", out)
+        bad = ""
+        if m:
+            ln_no = int(m.group(1))
+            k = (ln_no - 3) // 2
+            if 0 <= k < len(used):
+                bad = used[k][1][:300]
+        po["broken"].append("extraction cross-check: vm_compute of the model and the extracted driver disagree (or the example does not typecheck) on: "
+                            + (bad or "?") + " :: " + out[-300:])
+    else:
+        ctx.report.notes.append(f"extraction cross-check: {len(used)} sampled commands ({', '.join(fams)}) re-evaluated by vm_compute inside coqc, all equal to the extracted driver's replies")
+
+
 def proof_obligations(pid: str) -> dict:
     """Re-compile props/<pid>.v and read the Print Assumptions output."""
     res = {"theorems": [], "obligations": 0, "discharged": 0, "broken": [], "checker_cmd": "", "assumptions": {}}
@@ -124,6 +168,7 @@ class Ctx:
         self.pid, self.tier, self.seed = pid, tier, seed
         self.rng = random.Random(seed * 1000003 + int(pid[1:]))
         self.driver = Driver()
+        self.driver.sample_cap = 8 if tier == "quick" else 40
         self.report = Report(pid, tier, seed)
         self.quick = tier == "quick"
 
@@ -199,6 +244,11 @@ def main() -> int:
         # plan does not expect (a correspondence obligation that cannot even be evaluated)
         disagreements = [{"family": "HARNESS", "what": "the check could not be completed on this tree", "traceback": traceback.format_exc()[-3000:],
                           "property_violation": None, "signature": {}}]
+    try:
+        if not disagreements or all(d.get("family") != "HARNESS" for d in disagreements):
+            extraction_cross_check(ctx, po)
+    except Exception as e:  # noqa: BLE001
+        po["broken"].append(f"extraction cross-check could not run: {e!r}")
     finally:
         ctx.driver.close()
 
